@@ -16,6 +16,11 @@
 //!     sign_sorted_rrset_in calls sharing ONE scratch buffer, and
 //!     sign_sorted_zone_records with every key list to length 3 (two
 //!     algorithms, repeated keys) over zones of one or two RRsets;
+//!   * key representations: BIND private-key text round trip and variants,
+//!     KeyPair::from_bytes per algorithm (and every foreign / bit-flipped
+//!     public key, which must be refused), sign_raw, generate();
+//!   * every public construction route of SortedRecords (insert, extend,
+//!     collect, remove_*, update_data) before signing;
 //!   * every legitimate resolver-side transformation from a fixed menu
 //!     (all permutations, duplicate removal, owner / RDATA-name / signer-name
 //!     case changes, TTL decrement, wildcard expansion, round trip through an
@@ -46,7 +51,7 @@ use domain::base::rdata::ComposeRecordData;
 use domain::base::{Message, Record, RecordData, Ttl};
 use domain::crypto::sign::{KeyPair, SecretKeyBytes};
 use domain::dnssec::sign::keys::signingkey::SigningKey;
-use domain::dnssec::sign::records::{Rrset, SortedRecords};
+use domain::dnssec::sign::records::{RecordsIter, Rrset, SortedRecords};
 use domain::dnssec::sign::signatures::rrsigs::{
     sign_rrset, sign_sorted_rrset_in, sign_sorted_zone_records, GenerateRrsigConfig,
 };
@@ -54,6 +59,7 @@ use domain::dnssec::validator::base::{DnskeyExt, RrsigExt};
 use domain::rdata::dnssec::Timestamp;
 use domain::rdata::{AllRecordData, Dnskey, Rrsig, ZoneRecordData};
 use mc::*;
+use octseq::OctetsFrom;
 use rayon::prelude::*;
 use serde_json::{json, Value};
 use std::collections::BTreeMap;
@@ -434,6 +440,8 @@ fn octets_class(component: &str, ctxname: &str, spec: &TypeSpec, d: &str) -> Str
         } else {
             format!("{base}|{ctxname}|type={}|duplicate-RRs-kept", spec.mn)
         }
+    } else if ctxname.contains("update_data") && d == "RRs-not-in-canonical-order" {
+        format!("{base}|SortedRecords::update_data|{d}")
     } else if d == "signer-name-not-lower-cased" {
         format!("{base}|{d}")
     } else if spec.lib_unknown_listed && d == "rdata-names-not-lower-cased" {
@@ -726,6 +734,8 @@ struct KeyMat {
     /// cannot sign with this algorithm
     signers: Vec<SKey>,
     ds_text: Option<String>,
+    key_text: String,
+    priv_text: String,
 }
 
 const SIGNER_NAMES: [&str; 2] = ["z.", "Z."];
@@ -755,8 +765,8 @@ fn load_key(alg: u8, tag: u16, can_sign: bool) -> KeyMat {
     rdata.extend_from_slice(&pubkey);
     let dnskey = Dnskey::new(flags, proto, SecurityAlgorithm::from_int(alg), Bytes::from(pubkey.clone())).unwrap();
     let mut signers = Vec::new();
+    let priv_text = std::fs::read_to_string(format!("{base}.private")).unwrap_or_default();
     if can_sign {
-        let priv_text = std::fs::read_to_string(format!("{base}.private")).expect("private file");
         for sn in SIGNER_NAMES {
             let secret = SecretKeyBytes::parse_from_bind(&priv_text).expect("private key parses");
             let pubrec = domain::dnssec::common::parse_from_bind::<Vec<u8>>(&key_text).expect("public key parses");
@@ -764,7 +774,7 @@ fn load_key(alg: u8, tag: u16, can_sign: bool) -> KeyMat {
             signers.push(SigningKey::new(lname(&labels(sn)), flags, kp));
         }
     }
-    KeyMat { alg, tag_file: tag, owner_file, flags, pubkey, rdata, dnskey, signers, ds_text }
+    KeyMat { alg, tag_file: tag, owner_file, flags, pubkey, rdata, dnskey, signers, ds_text, key_text, priv_text }
 }
 
 // ===================================================================
@@ -1187,6 +1197,14 @@ fn entry_name(e: u8) -> &'static str {
     match e {
         1 => "sign_rrset",
         2 => "sorted+sign_sorted_rrset_in",
+        3 => "sign_sorted_zone_records",
+        10 => "sorted[insert]+sign_sorted_rrset_in",
+        11 => "sorted[default+extend]+sign_sorted_rrset_in",
+        12 => "sorted[extend-one-by-one]+sign_sorted_rrset_in",
+        13 => "sorted[collect]+sign_sorted_rrset_in",
+        14 => "sorted[from+remove_all+extend]+sign_sorted_rrset_in",
+        15 => "sorted[from+remove_first*+insert]+sign_sorted_rrset_in",
+        16 => "sorted[from+update_data]+sign_sorted_rrset_in",
         _ => "sign_sorted_zone_records",
     }
 }
@@ -1210,6 +1228,8 @@ enum Form {
     Comp,
     /// through a compressed message, flattened into zone records
     CompFlat,
+    /// records, RRSIG and DNSKEY converted to the Vec<u8> octets type
+    VecOcts,
 }
 
 struct Signed {
@@ -1234,6 +1254,112 @@ fn published_of(sorted: &SortedRecords<LName, ZData>) -> Pubd {
             (name_labels(r.owner()), r.rtype().to_int(), r.class().to_int(), r.ttl().as_secs(), rd)
         })
         .collect()
+}
+
+/// A value of the type that is not (even case-insensitively) one of the
+/// case's records: the stand-in that the update_data route replaces.
+fn placeholder_for(env: &Env, c: &Case) -> Option<Vec<F>> {
+    if c.entry != 16 {
+        return None;
+    }
+    let spec = &env.types[c.ti];
+    let fold = |f: &Vec<F>| RawRR { owner: vec![], rtype: 2, class: 1, ttl: 0, fields: f.clone() }.rdata_canon(false);
+    let used: Vec<Vec<u8>> = c.seq.iter().map(|&i| fold(&spec.values[i])).collect();
+    // updating a record to data another record already has makes a duplicate
+    // by the caller's own doing: not a route to judge
+    if used[1..].contains(&used[0]) {
+        return None;
+    }
+    spec.values.iter().find(|v| !used.contains(&fold(v))).cloned()
+}
+
+/// Build the collection of one RRset's records along one of the public
+/// construction routes of SortedRecords, checking the bookkeeping methods on
+/// the way. Errors starting with "ROUTE:" are violations of their own.
+fn sorted_by_route(route: u8, zrecs: &[ZRec], placeholder: Option<ZRec>, apex: &LName, rtype: u16) -> Result<SortedRecords<LName, ZData>, String> {
+    let owner = zrecs[0].owner().clone();
+    let class = zrecs[0].class();
+    let rt = Rtype::from_int(rtype);
+    let sorted: SortedRecords<LName, ZData> = match route {
+        10 => {
+            let mut s = SortedRecords::new();
+            for r in zrecs {
+                // Err = "already there": a duplicate, which is fine
+                let _ = s.insert(r.clone());
+            }
+            s
+        }
+        11 => {
+            let mut s: SortedRecords<LName, ZData> = Default::default();
+            s.extend(zrecs.iter().cloned());
+            s
+        }
+        12 => {
+            let mut s = SortedRecords::new();
+            for r in zrecs {
+                s.extend(std::iter::once(r.clone()));
+            }
+            s
+        }
+        13 => zrecs.iter().cloned().collect(),
+        14 => {
+            let mut s: SortedRecords<LName, ZData> = SortedRecords::from(zrecs.to_vec());
+            if s.remove_all_by_name_class_rtype(&owner, Some(class), Some(Rtype::from_int(rtype ^ 0x4000))) {
+                return Err("ROUTE:remove_all-of-absent-type-returned-true|".into());
+            }
+            if !s.remove_all_by_name_class_rtype(&owner, Some(class), Some(rt)) {
+                return Err("ROUTE:remove_all-of-present-rrset-returned-false|".into());
+            }
+            if !s.is_empty() || s.len() != 0 || s.rrsets().count() != 0 {
+                return Err(format!("ROUTE:remove_all-left-records|{} left", s.len()));
+            }
+            s.extend(zrecs.iter().cloned());
+            s
+        }
+        15 => {
+            let mut s: SortedRecords<LName, ZData> = SortedRecords::from(zrecs.to_vec());
+            let n = s.len();
+            for k in 0..n {
+                if !s.remove_first_by_name_class_rtype(&owner, None, Some(rt)) {
+                    return Err(format!("ROUTE:remove_first-returned-false-with-records-left|after {k} of {n}"));
+                }
+                if s.len() != n - k - 1 {
+                    return Err(format!("ROUTE:remove_first-did-not-remove-exactly-one|len {} after {} removals of {n}", s.len(), k + 1));
+                }
+            }
+            if s.remove_first_by_name_class_rtype(&owner, Some(class), None) {
+                return Err("ROUTE:remove_first-on-empty-returned-true|".into());
+            }
+            for r in zrecs {
+                let _ = s.insert(r.clone());
+            }
+            s
+        }
+        _ => {
+            // the first record enters as a stand-in and gets its data by update_data
+            let Some(ph) = placeholder else { return Err("NO-PLACEHOLDER".into()) };
+            let mut v = zrecs.to_vec();
+            let real = v[0].data().clone();
+            let phd = ph.data().clone();
+            v[0] = ph;
+            let mut s: SortedRecords<LName, ZData> = SortedRecords::from(v);
+            s.update_data(|r| r.data() == &phd, real);
+            s
+        }
+    };
+    // bookkeeping agrees with the contents
+    let n = sorted.iter().count();
+    if sorted.len() != n || sorted.is_empty() != (n == 0) || (&*sorted).len() != n {
+        return Err("ROUTE:len/is_empty/deref-disagree|".into());
+    }
+    let at_apex = wire::labels_eq_ci(&name_labels(&owner), &name_labels(apex));
+    if sorted.find_apex_rtype(apex, rt).is_some() != at_apex {
+        return Err(format!("ROUTE:find_apex_rtype-wrong|owner {owner} apex {apex}"));
+    }
+    if sorted.find_soa().is_some() != (rtype == 6) {
+        return Err("ROUTE:find_soa-wrong|".into());
+    }
+    Ok(sorted)
 }
 
 /// Run the signer for one case and check the RRSIG. Returns the signature
@@ -1271,8 +1397,16 @@ fn sign_case(env: &Env, c: &Case, l: &mut Local) -> Option<Signed> {
                 let rrset = Rrset::new_from_owned(&zrecs).map_err(|e| format!("{e:?}"))?;
                 sign_rrset(skey, &rrset, i, e).map(|r| (Some(r), None)).map_err(|e| format!("{e:?}"))
             }
-            2 => {
-                let sorted: SortedRecords<LName, ZData> = SortedRecords::from(zrecs.clone());
+            2 | 10..=16 => {
+                let sorted: SortedRecords<LName, ZData> = if c.entry == 2 {
+                    SortedRecords::from(zrecs.clone())
+                } else {
+                    let placeholder = placeholder_for(env, c).map(|f| {
+                        let m = build_msg(&[RawRR { fields: f, ..rrs[0].clone() }], false);
+                        lib_zrecs(&m.bytes).expect("placeholder readable").remove(0)
+                    });
+                    sorted_by_route(c.entry, &zrecs, placeholder, &apex, spec.rtype)?
+                };
                 let sets: Vec<_> = sorted.rrsets().collect();
                 if sets.len() != 1 {
                     return Err(format!("SortedRecords split one RRset into {}", sets.len()));
@@ -1295,6 +1429,14 @@ fn sign_case(env: &Env, c: &Case, l: &mut Local) -> Option<Signed> {
     let rec = match res {
         Err(p) => {
             env.ctx.violation(&format!("C12|{en}|panic|{}", panic_class(&p)), &format!("signer panicked: {p}"), c.json(env));
+            return None;
+        }
+        Ok(Err(e)) if e == "NO-PLACEHOLDER" => {
+            l.c("routes:update_data-skipped(no unused value)");
+            return None;
+        }
+        Ok(Err(e)) if e.starts_with("ROUTE:") => {
+            env.ctx.violation(&format!("C12|SortedRecords|{}", e.split('|').next().unwrap_or("")), &format!("{en}: {e}"), c.json(env));
             return None;
         }
         Ok(Err(e)) => {
@@ -1512,6 +1654,7 @@ fn transforms(s: &Signed) -> Vec<(String, Vec<RawRR>, SigF, Form)> {
     let n = rrs.len();
     let lower_type = rfc_canon(rrs[0].rtype) == Canon::Lower;
     out.push(("identity".into(), rrs.clone(), sig.clone(), Form::Direct));
+    out.push(("identity-vec-octets".into(), rrs.clone(), sig.clone(), Form::VecOcts));
     // every permutation
     let mut seen: Vec<Vec<RawRR>> = Vec::new();
     for p in perms(n) {
@@ -1612,6 +1755,21 @@ fn lib_validate(rrs: &[RawRR], sig: &SigF, form: Form, dnskey: &Dnskey<Bytes>) -
             let verify = lsig.verify_signed_data(dnskey, &octets).map_err(|e| format!("{e:?}"));
             Ok(LibOut { octets, verify, wce })
         }
+        Form::VecOcts => {
+            type VN = Name<Vec<u8>>;
+            let m = build_msg(rrs, false);
+            let mut recs: Vec<Record<VN, ZoneRecordData<Vec<u8>, VN>>> = Vec::new();
+            for r in lib_zrecs(&m.bytes)? {
+                recs.push(Record::try_octets_from(r).map_err(|_| "octets conversion".to_string())?);
+            }
+            let lsig: Rrsig<Vec<u8>, VN> = Rrsig::try_octets_from(lib_sig_from(sig)).map_err(|_| "octets conversion".to_string())?;
+            let dk: Dnskey<Vec<u8>> = dnskey.clone().convert();
+            let wce = lsig.wildcard_closest_encloser(&recs[0]).map(|n| lower_labels(&name_labels(&n)));
+            let mut octets = Vec::new();
+            lsig.signed_data(&mut octets, &mut recs).expect("Vec never short");
+            let verify = lsig.verify_signed_data(&dk, &octets).map_err(|e| format!("{e:?}"));
+            Ok(LibOut { octets, verify, wce })
+        }
         Form::Plain | Form::Comp => {
             let mut all = rrs.to_vec();
             all.push(sig.as_rr(&rrs[0].owner, rrs[0].class, rrs[0].ttl));
@@ -1629,7 +1787,7 @@ fn lib_validate(rrs: &[RawRR], sig: &SigF, form: Form, dnskey: &Dnskey<Bytes>) -
 fn check_transforms(env: &Env, spec: &TypeSpec, key: &KeyMat, cj: &Value, s: &Signed, full: bool, l: &mut Local) {
     for (label, rrs_t, sig_t, form) in transforms(s) {
         // the multi-step histories use a reduced transformation menu
-        if !full && !matches!(label.as_str(), "identity" | "compressed-reversed" | "combined") {
+        if !full && !matches!(label.as_str(), "identity" | "identity-vec-octets" | "compressed-reversed" | "combined") {
             continue;
         }
         l.evals += 1;
@@ -1727,13 +1885,18 @@ struct Multi {
     mode: u8,
     /// (key index, sign the OTHER RRset `o.z TXT` instead of the case's [mode 4])
     steps: Vec<(usize, bool)>,
-    /// mode 5: the zone also holds the other RRset
-    zone_two: bool,
+    /// mode 5: 0 = the zone holds the case's RRset only; 1 = also the other
+    /// RRset; 2 = also records outside the zone, sorting before (`a.y`) and
+    /// after (`zz`) it, which must not be signed
+    zone: u8,
+    /// mode 5: hand the records over as RecordsIter::new_from_refs (slice of
+    /// references) instead of SortedRecords::owner_rrs
+    refs: bool,
 }
 
 impl Multi {
     fn json(&self, env: &Env) -> Value {
-        json!({"part": "multi", "case": self.base.json(env), "mode": self.mode, "zone_two": self.zone_two,
+        json!({"part": "multi", "case": self.base.json(env), "mode": self.mode, "zone": self.zone, "refs": self.refs,
                "steps": self.steps.iter().map(|&(ki, o)| json!([env.keys[ki].alg, o])).collect::<Vec<_>>()})
     }
 }
@@ -1745,10 +1908,11 @@ fn multi_case(env: &Env, m: &Multi, l: &mut Local) {
     let (inc, exp, _) = env.times[c.tm];
     let main = c.rrs(env);
     let other = vec![RawRR { owner: labels("o.z"), rtype: 16, class: c.class, ttl: c.ttl, fields: ospec.values[0].clone() }];
+    let outside: Vec<RawRR> = ["a.y", "zz"].iter().map(|o| RawRR { owner: labels(o), rtype: 16, class: c.class, ttl: c.ttl, fields: ospec.values[0].clone() }).collect();
     let cj = m.json(env);
     l.evals += 1;
-    let (zm, zo) = match guard(|| (lib_zrecs(&build_msg(&main, false).bytes), lib_zrecs(&build_msg(&other, false).bytes))) {
-        Ok((Ok(a), Ok(b))) => (a, b),
+    let (zm, zo, zx) = match guard(|| (lib_zrecs(&build_msg(&main, false).bytes), lib_zrecs(&build_msg(&other, false).bytes), lib_zrecs(&build_msg(&outside, false).bytes))) {
+        Ok((Ok(a), Ok(b), Ok(x))) => (a, b, x),
         _ => {
             env.ctx.violation(&format!("C12|input|type={}|library-cannot-read-generated-record", spec.mn), "multi-step: generated records unreadable", cj);
             return;
@@ -1818,13 +1982,21 @@ fn multi_case(env: &Env, m: &Multi, l: &mut Local) {
     } else {
         let res = guard(|| -> Result<(Vec<Record<LName, LSig>>, Pubd), String> {
             let mut all = zm.clone();
-            if m.zone_two {
+            if m.zone >= 1 {
                 all.extend(zo.clone());
+            }
+            if m.zone >= 2 {
+                all.extend(zx.clone());
             }
             let sorted: SortedRecords<LName, ZData> = SortedRecords::from(all);
             let keys: Vec<&SKey> = m.steps.iter().map(|&(ki, _)| &env.keys[ki].signers[c.si]).collect();
             let cfg = GenerateRrsigConfig::new(i, e);
-            let v = sign_sorted_zone_records(&apex, sorted.owner_rrs(), &keys, &cfg).map_err(|e| format!("{e:?}"))?;
+            let v = if m.refs {
+                let refs: Vec<&ZRec> = sorted.iter().collect();
+                sign_sorted_zone_records(&apex, RecordsIter::new_from_refs(&refs), &keys, &cfg).map_err(|e| format!("{e:?}"))?
+            } else {
+                sign_sorted_zone_records(&apex, sorted.owner_rrs(), &keys, &cfg).map_err(|e| format!("{e:?}"))?
+            };
             Ok((v, published_of(&sorted)))
         });
         let (sigs, p) = match res {
@@ -1841,7 +2013,7 @@ fn multi_case(env: &Env, m: &Multi, l: &mut Local) {
         };
         let mut claimed = vec![false; sigs.len()];
         let mut groups: Vec<(&TypeSpec, Vec<RawRR>)> = vec![(spec, to_rrs(spec, &p, &main[0].owner))];
-        if m.zone_two {
+        if m.zone >= 1 {
             groups.push((ospec, to_rrs(ospec, &p, &other[0].owner)));
         }
         for (gi, (sp, rrs)) in groups.into_iter().enumerate() {
@@ -2160,6 +2332,347 @@ fn fault_case(env: &Env, c: &Case, l: &mut Local) {
 }
 
 // ===================================================================
+// key representations: text form, bytes form, generated keys, sign_raw
+// ===================================================================
+
+/// Own reading of a BIND private-key text: field name -> decoded octets
+/// (base64 fields) or raw text (the two header lines).
+fn bind_fields(text: &str) -> BTreeMap<String, Vec<u8>> {
+    let mut m = BTreeMap::new();
+    for line in text.lines() {
+        let Some((k, v)) = line.split_once(':') else { continue };
+        let (k, v) = (k.trim().to_string(), v.trim());
+        if k == "Private-key-format" || k == "Algorithm" {
+            m.insert(k, v.as_bytes().to_vec());
+        } else {
+            m.insert(k, b64(v));
+        }
+    }
+    m
+}
+
+/// RSA modulus bit length / curve size, from the DNSKEY public key by hand.
+fn ref_key_size(alg: u8, pubkey: &[u8]) -> Option<usize> {
+    match alg {
+        5 | 7 | 8 | 10 => {
+            let (l, off) = if pubkey[0] != 0 { (pubkey[0] as usize, 1) } else { (u16::from_be_bytes([pubkey[1], pubkey[2]]) as usize, 3) };
+            let n = &pubkey[off + l..];
+            Some(n.len() * 8 - n[0].leading_zeros() as usize)
+        }
+        13 => Some(256),
+        14 => Some(384),
+        15 => Some(256),
+        16 => Some(456),
+        _ => None,
+    }
+}
+
+fn key_form_checks(env: &Env, form_keys: &[KeyMat], all_keys: &[KeyMat], l: &mut Local) {
+    use domain::crypto::common::PublicKey as LibPublicKey;
+    use domain::crypto::sign::{generate, GenerateParams, SignRaw};
+    let viol = |sig: String, what: String, rp: Value| {
+        env.ctx.violation(&sig, &what, rp);
+    };
+    let small: Vec<(usize, usize)> = {
+        // (type index, owner index) of the RRsets signed with every key form
+        let mut v = Vec::new();
+        for mn in ["A", "MX", "TXT"] {
+            let ti = env.types.iter().position(|t| t.mn == mn).unwrap();
+            for oi in [0usize, 3] {
+                v.push((ti, oi));
+            }
+        }
+        v
+    };
+    // sign the small RRset menu with a key pair, judge every RRSIG under `pubk`
+    let sign_menu = |kp: KeyPair, pubk: &KeyMat, form: &str, l: &mut Local| {
+        let skey = SigningKey::new(lname(&labels(SIGNER_NAMES[0])), pubk.flags, kp);
+        for &(ti, oi) in &small {
+            l.evals += 1;
+            let c = Case { ti, seq: vec![2, 0], oi, oc: 0, ttl: 3600, tm: 0, si: 0, class: 1, ki: 0, entry: 1, mixed: false };
+            let rrs = c.rrs(env);
+            let cj = json!({"part": "keyform", "form": form, "alg": pubk.alg, "type": env.types[ti].mn, "owner": OWNERS[oi]});
+            let (inc, exp, _) = env.times[0];
+            let res = guard(|| {
+                let z = lib_zrecs(&build_msg(&rrs, false).bytes)?;
+                let rrset = Rrset::new_from_owned(&z).map_err(|e| format!("{e:?}"))?;
+                sign_rrset(&skey, &rrset, Timestamp::from(inc), Timestamp::from(exp)).map_err(|e| format!("{e:?}"))
+            });
+            match res {
+                Ok(Ok(rec)) => {
+                    let en = format!("sign_rrset|key-form#{form}");
+                    let x = Expect { en: &en, spec: &env.types[ti], key: pubk, si: 0, inc, exp, ttl: 3600, class: 1, hash: fnv(format!("{cj}").as_bytes()) };
+                    if let Some(s) = judge_rrsig(env, &x, rrs, &rec, &cj, l) {
+                        l.c(&format!("keyform:{form}:signature-verifies"));
+                        check_transforms(env, &env.types[ti], pubk, &cj, &s, false, l);
+                    }
+                }
+                other => viol(format!("C12|key-form|{form}|sign-failed"), format!("alg {}: signing with the {form} key failed: {other:?}", pubk.alg), cj),
+            }
+        }
+    };
+    for k in form_keys {
+        let rp = |what: &str| json!({"part": "keyform", "alg": k.alg, "what": what});
+        let pubrec = domain::dnssec::common::parse_from_bind::<Vec<u8>>(&k.key_text).expect("public key parses");
+        // ---- (a) text form round trip
+        l.evals += 1;
+        let r = guard(|| -> Result<(String, String, String, u8), String> {
+            let s1 = SecretKeyBytes::parse_from_bind(&k.priv_text).map_err(|e| format!("parse: {e}"))?;
+            let t1 = s1.display_as_bind().to_string();
+            let mut t2 = String::new();
+            s1.format_as_bind(&mut t2).map_err(|e| format!("format: {e}"))?;
+            let s2 = SecretKeyBytes::parse_from_bind(&t1).map_err(|e| format!("re-parse: {e}"))?;
+            let t3 = s2.display_as_bind().to_string();
+            let a = s1.algorithm().to_int();
+            Ok((t1, t2, t3, a))
+        });
+        let t1 = match r {
+            Ok(Ok((t1, t2, t3, a))) => {
+                if t1 != t2 || t1 != t3 {
+                    viol("C12|key-form|text|display-not-idempotent".into(), format!("alg {}: display_as_bind / format_as_bind / re-parsed display differ", k.alg), rp("text"));
+                }
+                if a != k.alg {
+                    viol("C12|key-form|text|algorithm".into(), format!("alg {}: SecretKeyBytes::algorithm() = {a}", k.alg), rp("text"));
+                }
+                if bind_fields(&t1) != bind_fields(&k.priv_text) {
+                    viol("C12|key-form|text|fields-changed-by-round-trip".into(), format!("alg {}: the key material written back differs from the file (own reading of both texts)", k.alg), rp("text"));
+                } else {
+                    l.c("keyform:text-round-trip-preserves-fields");
+                }
+                t1
+            }
+            other => {
+                viol("C12|key-form|text|round-trip-failed".into(), format!("alg {}: {other:?}", k.alg), rp("text"));
+                continue;
+            }
+        };
+        // ---- text variants a BIND tool may write
+        let body: String = k.priv_text.lines().skip(1).collect::<Vec<_>>().join("\n");
+        let variants: Vec<(&str, String)> = vec![
+            ("as-written-back", t1.clone()),
+            ("no-final-newline", k.priv_text.trim_end().to_string()),
+            ("v1.3+timing-fields", format!("Private-key-format: v1.3\n{body}\nCreated: 20240101000000\nPublish: 20240101000000\nActivate: 20240101000000\n")),
+            ("blank-lines", k.priv_text.replace('\n', "\n\n")),
+        ];
+        for (vn, text) in &variants {
+            l.evals += 1;
+            let r = guard(|| -> Result<KeyPair, String> {
+                let s = SecretKeyBytes::parse_from_bind(text).map_err(|e| format!("parse: {e}"))?;
+                if s.display_as_bind().to_string() != t1 {
+                    return Err("different key".into());
+                }
+                KeyPair::from_bytes(&s, pubrec.data()).map_err(|e| format!("from_bytes: {e}"))
+            });
+            match r {
+                Ok(Ok(kp)) => {
+                    env.stats.distinct(fnv(format!("keyform|{}|{vn}", k.alg).as_bytes()));
+                    // ---- (b) the imported pair reports the file's public key
+                    let d = kp.dnskey();
+                    if kp.algorithm().to_int() != k.alg || d.public_key() != &k.pubkey || d.flags() != k.flags || d.protocol() != 3 || d.algorithm().to_int() != k.alg {
+                        viol("C12|key-form|bytes|dnskey-differs-from-key-file".into(), format!("alg {}: KeyPair::dnskey() after text variant {vn}", k.alg), rp(vn));
+                    }
+                    // ---- (c) and signs verifiably under the file's public key
+                    sign_menu(kp, k, &format!("text:{vn}"), l);
+                }
+                other => viol(format!("C12|key-form|text|variant={vn}|rejected"), format!("alg {}: {other:?}", k.alg), rp(vn)),
+            }
+        }
+        // ---- (d) sign_raw: the primitive under the signer
+        let msgs: Vec<Vec<u8>> = vec![vec![], b"a".to_vec(), vec![0x55; 1000], (0..70_000u32).map(|i| i as u8).collect()];
+        let r = guard(|| -> Result<Vec<(u8, Vec<u8>, Vec<u8>)>, String> {
+            let s = SecretKeyBytes::parse_from_bind(&k.priv_text).map_err(|e| format!("{e}"))?;
+            let kp = KeyPair::from_bytes(&s, pubrec.data()).map_err(|e| format!("{e}"))?;
+            let mut out = Vec::new();
+            for m in &msgs {
+                let sig = kp.sign_raw(m).map_err(|e| format!("sign_raw: {e}"))?;
+                let a = sig.algorithm().to_int();
+                let by_ref = sig.as_ref().to_vec();
+                let boxed: Box<[u8]> = sig.into();
+                out.push((a, by_ref, boxed.to_vec()));
+            }
+            Ok(out)
+        });
+        match r {
+            Ok(Ok(v)) => {
+                for (m, (a, by_ref, boxed)) in msgs.iter().zip(v) {
+                    l.evals += 1;
+                    env.stats.distinct(fnv(format!("sign_raw|{}|{}", k.alg, m.len()).as_bytes()));
+                    let lib = guard(|| {
+                        let pk = LibPublicKey::from_dnskey(&k.dnskey).map_err(|e| format!("{e:?}"))?;
+                        let ok = pk.verify(m, &by_ref).map_err(|e| format!("{e:?}"));
+                        let mut m2 = m.clone();
+                        m2.push(0);
+                        let bad = pk.verify(&m2, &by_ref).map_err(|e| format!("{e:?}"));
+                        Ok::<_, String>((ok, bad))
+                    });
+                    let good = a == k.alg && by_ref == boxed && by_ref.len() == sig_len(k.alg) && ring_verify(k.alg, &k.pubkey, m, &by_ref);
+                    if !good {
+                        viol("C12|sign_raw|signature-does-not-verify-with-ring".into(), format!("alg {}: sign_raw over {} octets: algorithm {a}, {} octets", k.alg, m.len(), by_ref.len()), rp("sign_raw"));
+                    }
+                    match lib {
+                        Ok(Ok((Ok(()), Err(_)))) => l.c("sign_raw:verifies,other-message-rejected"),
+                        other => viol("C12|sign_raw|PublicKey::verify-disagrees".into(), format!("alg {}: crypto::common::PublicKey::verify over sign_raw output: {other:?}", k.alg), rp("sign_raw")),
+                    }
+                }
+            }
+            other => viol("C12|sign_raw|failed".into(), format!("alg {}: {other:?}", k.alg), rp("sign_raw")),
+        }
+        // ---- (e) a secret key must only pair with ITS public key
+        let secret = SecretKeyBytes::parse_from_bind(&k.priv_text).expect("parsed above");
+        for other in all_keys {
+            l.evals += 1;
+            let r = guard(|| KeyPair::from_bytes(&secret, &other.dnskey).is_ok());
+            match r {
+                Ok(ok) if ok == (other.alg == k.alg) => l.c(if ok { "from_bytes:own-public-key-accepted" } else { "from_bytes:foreign-public-key-refused" }),
+                other_r => viol("C12|key-form|from_bytes|foreign-public-key".into(), format!("secret key alg {} with the public key of alg {}: accepted = {other_r:?}", k.alg, other.alg), rp("from_bytes")),
+            }
+        }
+        for bit in 0..k.rdata.len() * 8 {
+            l.evals += 1;
+            let mut r = k.rdata.clone();
+            r[bit / 8] ^= 0x80 >> (bit % 8);
+            let res = guard(|| {
+                let dk = Dnskey::new(u16::from_be_bytes([r[0], r[1]]), r[2], SecurityAlgorithm::from_int(r[3]), r[4..].to_vec()).unwrap();
+                KeyPair::from_bytes(&secret, &dk).is_ok()
+            });
+            env.stats.distinct(fnv(format!("from_bytes|{}|{bit}", k.alg).as_bytes()));
+            match (bit / 8, res) {
+                (_, Err(p)) => viol(format!("C12|key-form|from_bytes|panic|{}", panic_class(&p)), format!("alg {} bit {bit}: {p}", k.alg), rp("from_bytes")),
+                // flags and protocol are not key material
+                (0..=2, Ok(_)) => l.c("from_bytes:flags/protocol-flip(not judged)"),
+                (_, Ok(false)) => l.c("from_bytes:altered-public-key-refused"),
+                (_, Ok(true)) => viol(
+                    "C12|key-form|from_bytes|altered-public-key-accepted".into(),
+                    format!("alg {}: KeyPair::from_bytes accepted the public key with bit {bit} of the DNSKEY RDATA flipped; signatures would not verify under it", k.alg),
+                    json!({"part": "keyform", "alg": k.alg, "bit": bit}),
+                ),
+            }
+        }
+    }
+    // ---- Ed448 and friends: a secret the backend cannot use must be refused
+    for k in all_keys.iter().filter(|k| !form_keys.iter().any(|f| f.alg == k.alg)) {
+        l.evals += 1;
+        let r = guard(|| match SecretKeyBytes::parse_from_bind(&k.priv_text) {
+            Ok(s) => format!("parsed, from_bytes ok = {}", KeyPair::from_bytes(&s, &k.dnskey).is_ok()),
+            Err(e) => format!("not parsed ({e})"),
+        });
+        match r {
+            Ok(t) if !t.ends_with("= true") => l.c("from_bytes:unsupported-algorithm-refused"),
+            other => viol("C12|key-form|unsupported-algorithm-imported".into(), format!("alg {}: {other:?}", k.alg), json!({"part": "keyform", "alg": k.alg})),
+        }
+    }
+    // ---- (f) key size, flag predicates, algorithm support predicates
+    for k in all_keys {
+        l.evals += 1;
+        let got = guard(|| k.dnskey.key_size().map_err(|e| format!("{e:?}")));
+        if got != Ok(Ok(ref_key_size(k.alg, &k.pubkey).unwrap())) {
+            viol("C12|key_size|differs".into(), format!("alg {}: key_size() = {got:?}, by hand {:?}", k.alg, ref_key_size(k.alg, &k.pubkey)), json!({"part": "keyform", "alg": k.alg}));
+        }
+        let can_verify = domain::crypto::common::PublicKey::from_dnskey(&k.dnskey).is_ok();
+        let says = domain::dnssec::validator::base::supported_algorithm(&SecurityAlgorithm::from_int(k.alg));
+        l.c(&format!("supported_algorithm({})={says},primitives-can-verify={can_verify}", k.alg));
+    }
+    for code in 0..=255u8 {
+        l.evals += 1;
+        let d = DigestAlgorithm::from_int(code);
+        let says = domain::dnssec::validator::base::supported_digest(&d);
+        let does = all_keys[0].dnskey.digest(&lname(&labels("test")), d).is_ok();
+        if says != does {
+            viol("C12|supported_digest|disagrees-with-digest()".into(), format!("digest type {code}: supported_digest = {says}, digest() ok = {does}"), json!({"part": "keyform", "digest_type": code}));
+        }
+    }
+    for flags in [0u16, 0x0001, 0x0080, 0x0100, 0x0101, 0x0180, 0x0181, 0x8000, 0xFFFF, 0xFE7E] {
+        l.evals += 1;
+        let k = form_keys.iter().find(|k| k.alg == 15).unwrap();
+        let r = guard(|| {
+            let s = SecretKeyBytes::parse_from_bind(&k.priv_text).unwrap();
+            let dk = Dnskey::new(flags, 3, SecurityAlgorithm::ED25519, k.pubkey.clone()).unwrap();
+            let kp = KeyPair::from_bytes(&s, &dk).unwrap();
+            let kd = kp.dnskey();
+            let sk = SigningKey::new(lname(&labels("z")), flags, kp);
+            (
+                (sk.flags(), sk.is_zone_signing_key(), sk.is_revoked(), sk.is_secure_entry_point()),
+                (kd.flags(), kd.is_zone_key(), kd.is_revoked(), kd.is_secure_entry_point()),
+                (sk.dnskey().flags(), dk.protocol()),
+            )
+        });
+        // RFC 4034 2.1.1 (bit 7 = Zone Key, bit 15 = SEP), RFC 5011 (bit 8 = REVOKE)
+        let want = (flags, flags & 0x0100 != 0, flags & 0x0080 != 0, flags & 0x0001 != 0);
+        if r != Ok((want, want, (flags, 3))) {
+            viol("C12|signing-key|flag-predicates".into(), format!("flags {flags:#06x}: {r:?}"), json!({"part": "keyform", "flags": flags}));
+        } else {
+            l.c("signing-key:flag-predicates-agree");
+        }
+    }
+    // ---- (g) generated keys
+    let params = [
+        GenerateParams::EcdsaP256Sha256,
+        GenerateParams::EcdsaP384Sha384,
+        GenerateParams::Ed25519,
+        GenerateParams::RsaSha256 { bits: 2048 },
+        GenerateParams::RsaSha512 { bits: 2048 },
+        GenerateParams::Ed448,
+    ];
+    for p in &params {
+        for flags in [256u16, 257] {
+            l.evals += 1;
+            let alg = p.algorithm().to_int();
+            let rp = json!({"part": "keyform", "what": "generate", "alg": alg, "flags": flags});
+            let r = guard(|| generate(p, flags).map_err(|e| format!("{e}")));
+            match r {
+                Err(pn) => viol(format!("C12|generate|panic|{}", panic_class(&pn)), pn, rp),
+                Ok(Err(_)) => l.c(&format!("generate:alg{alg}:refused(backend cannot generate)")),
+                Ok(Ok((secret, dk))) => {
+                    let mut rdata = flags.to_be_bytes().to_vec();
+                    rdata.extend_from_slice(&[3, alg]);
+                    rdata.extend_from_slice(dk.public_key());
+                    let want_len = match alg {
+                        13 => 64,
+                        14 => 96,
+                        15 => 32,
+                        _ => dk.public_key().len(),
+                    };
+                    if dk.flags() != flags || dk.protocol() != 3 || dk.algorithm().to_int() != alg || secret.algorithm().to_int() != alg || dk.public_key().len() != want_len || dk.key_tag() != keytag_app_b(&rdata) {
+                        viol("C12|generate|dnskey-fields".into(), format!("generate({p:?}, {flags}) returned an inconsistent DNSKEY"), rp.clone());
+                        continue;
+                    }
+                    let pubk = KeyMat {
+                        alg,
+                        tag_file: 0,
+                        owner_file: vec![],
+                        flags,
+                        pubkey: dk.public_key().clone(),
+                        rdata,
+                        dnskey: Dnskey::new(flags, 3, SecurityAlgorithm::from_int(alg), Bytes::from(dk.public_key().clone())).unwrap(),
+                        signers: vec![],
+                        ds_text: None,
+                        key_text: String::new(),
+                        priv_text: String::new(),
+                    };
+                    // through the text form and back, then import and sign
+                    let kp = guard(|| -> Result<KeyPair, String> {
+                        let text = secret.display_as_bind().to_string();
+                        let s2 = SecretKeyBytes::parse_from_bind(&text).map_err(|e| format!("re-parse: {e}"))?;
+                        if s2.display_as_bind().to_string() != text {
+                            return Err("text form not stable".into());
+                        }
+                        KeyPair::from_bytes(&s2, &dk).map_err(|e| format!("from_bytes: {e}"))
+                    });
+                    match kp {
+                        Ok(Ok(kp)) => {
+                            l.c(&format!("generate:alg{alg}:generated,imported"));
+                            env.stats.distinct(fnv(format!("generate|{alg}|{flags}").as_bytes()));
+                            sign_menu(kp, &pubk, "generated", l);
+                        }
+                        other => viol("C12|generate|generated-key-not-importable".into(), format!("generate({p:?}, {flags}): {other:?}"), rp),
+                    }
+                }
+            }
+        }
+    }
+}
+
+// ===================================================================
 // key tag and DS digest
 // ===================================================================
 
@@ -2267,6 +2780,20 @@ fn ds_checks(env: &Env, all_keys: &[KeyMat], l: &mut Local) {
                         input.extend_from_slice(&k.rdata);
                         let want = rd::digest(ra, &input).as_ref().to_vec();
                         env.stats.distinct(fnv(format!("ds|{}|{o}|{code}", k.alg).as_bytes()));
+                        // the DS RDATA built from it (RFC 4034 5.1)
+                        let tag = keytag_app_b(&k.rdata);
+                        let mut hand = tag.to_be_bytes().to_vec();
+                        hand.extend_from_slice(&[k.alg, code]);
+                        hand.extend_from_slice(&want);
+                        let lib_ds = guard(|| {
+                            let ds = domain::rdata::Ds::new(k.dnskey.key_tag(), k.dnskey.algorithm(), da, d.clone()).map_err(|e| format!("{e}"))?;
+                            let mut v = Vec::new();
+                            ds.compose_rdata(&mut v).expect("vec");
+                            Ok::<_, String>((v, ds.key_tag(), ds.algorithm().to_int(), ds.digest_type().to_int(), ds.digest().clone()))
+                        });
+                        if lib_ds != Ok(Ok((hand.clone(), tag, k.alg, code, want.clone()))) && d == want {
+                            env.ctx.violation(&format!("C12|ds-rdata|type={code}|differs"), &format!("Ds::new(..) for the alg {} key composes to something else than {}", k.alg, hex(&hand)), replay.clone());
+                        }
                         if d != want {
                             env.ctx.violation(
                                 &format!("C12|ds-digest|type={code}|differs-from-RFC4034-5.1.4"),
@@ -2314,7 +2841,7 @@ fn seqs(k: usize, maxlen: usize) -> Vec<Vec<usize>> {
     out
 }
 
-fn build_env(ctx: Arc<Ctx>, quick: bool) -> (Env, Vec<KeyMat>) {
+fn build_env(ctx: Arc<Ctx>, quick: bool) -> (Env, Vec<KeyMat>, Vec<KeyMat>) {
     let sign_algs: &[(u8, u16)] = if quick { &[(13, 42253), (15, 56037)] } else { &[(8, 60616), (10, 46731), (13, 42253), (14, 33566), (15, 56037)] };
     let keys: Vec<KeyMat> = sign_algs.iter().map(|&(a, t)| load_key(a, t, true)).collect();
     // keys the ring backend cannot sign with still have a tag and a DS
@@ -2327,8 +2854,11 @@ fn build_env(ctx: Arc<Ctx>, quick: bool) -> (Env, Vec<KeyMat>) {
             all_keys.push(load_key(a, t, false));
         }
     }
+    // every algorithm the backend can sign with, in both tiers, for the key
+    // representation checks
+    let form_keys: Vec<KeyMat> = [(8u8, 60616u16), (10, 46731), (13, 42253), (14, 33566), (15, 56037)].iter().map(|&(a, t)| load_key(a, t, false)).collect();
     let env = Env { ctx, stats: Stats::new(), types: type_menu(quick), keys, times: time_menu(quick), verbose: false, quick };
-    (env, all_keys)
+    (env, all_keys, form_keys)
 }
 
 fn run_all(env: &Env, cases: &[Case], f: impl Fn(&Env, &Case, &mut Local) + Sync) -> Local {
@@ -2367,10 +2897,11 @@ fn main() {
         let is_multi = node["part"] == "multi";
         let inner = if is_multi { node["case"].clone() } else { node.clone() };
         let tier_quick = inner["tier"].as_str().map(|t| t == "quick").unwrap_or(ctx.quick());
-        let (mut env, all_keys) = build_env(ctx.clone(), tier_quick);
+        let (mut env, all_keys, form_keys) = build_env(ctx.clone(), tier_quick);
         env.verbose = true;
         let mut l = Local::default();
-        match case["part"].as_str().unwrap_or("") {
+        match if node["part"] == "keyform" { "keyform" } else { case["part"].as_str().unwrap_or("") } {
+            "keyform" => key_form_checks(&env, &form_keys, &all_keys, &mut l),
             "keytag" => keytag_checks(&env, &all_keys, tier_quick, &mut l),
             "ds" => ds_checks(&env, &all_keys, &mut l),
             part => {
@@ -2385,7 +2916,8 @@ fn main() {
                     let m = Multi {
                         base: c.clone(),
                         mode: node["mode"].as_u64().unwrap_or(4) as u8,
-                        zone_two: node["zone_two"].as_bool().unwrap_or(false),
+                        zone: node["zone"].as_u64().unwrap_or(0) as u8,
+                        refs: node["refs"].as_bool().unwrap_or(false),
                         steps: node["steps"]
                             .as_array()
                             .unwrap()
@@ -2410,7 +2942,7 @@ fn main() {
     }
     // ---------------- full run
     let quick = ctx.quick();
-    let (env, all_keys) = build_env(ctx.clone(), quick);
+    let (env, all_keys, form_keys) = build_env(ctx.clone(), quick);
     let k = env.types[0].values.len();
     let all_seqs = seqs(k, 3);
     let nkeys = env.keys.len();
@@ -2556,19 +3088,39 @@ fn main() {
         let base = |oi: usize| Case { ti, seq: vec![2, 0], oi, oc: 0, ttl: 3600, tm: 0, si: 0, class: 1, ki: 0, entry: 0, mixed: false };
         for oi in [0usize, 3] {
             for h in &h4 {
-                p5.push(Multi { base: base(oi), mode: 4, steps: h.clone(), zone_two: false });
+                p5.push(Multi { base: base(oi), mode: 4, steps: h.clone(), zone: 0, refs: false });
             }
         }
         for oi in 0..OWNERS.len() {
             for h in &h5 {
-                for zone_two in [false, true] {
-                    p5.push(Multi { base: base(oi), mode: 5, steps: h.clone(), zone_two });
+                // the slice-of-references input route with the two-RRset zone
+                for (zone, refs) in [(0u8, false), (1, false), (2, false), (1, true)] {
+                    p5.push(Multi { base: base(oi), mode: 5, steps: h.clone(), zone, refs });
+                }
+            }
+        }
+    }
+    // P7: every public construction route of SortedRecords must end in a
+    // collection whose RRset signs to the independent octets
+    let last_ki = nkeys - 1; // Ed25519
+    let mut p7: Vec<Case> = Vec::new();
+    for ti in 0..env.types.len() {
+        if env.types[ti].rtype == 46 {
+            continue;
+        }
+        for seq in &all_seqs {
+            for oi in [0usize, 3] {
+                for entry in 10u8..=16 {
+                    p7.push(Case { ti, seq: seq.clone(), oi, oc: 0, ttl: 3600, tm: 0, si: 0, class: 1, ki: last_ki, entry, mixed: false });
                 }
             }
         }
     }
     let t0 = std::time::Instant::now();
     let mut total = Local::default();
+    key_form_checks(&env, &form_keys, &all_keys, &mut total);
+    let e6 = total.evals;
+    eprintln!("P6 done: {} evaluations, {:.1}s", e6, t0.elapsed().as_secs_f64());
     keytag_checks(&env, &all_keys, quick, &mut total);
     ds_checks(&env, &all_keys, &mut total);
     let l1 = run_all(&env, &p1, sign_and_transform);
@@ -2581,8 +3133,10 @@ fn main() {
     eprintln!("P4 done: {} cases, {} evaluations, {:.1}s", p4.len(), l4.evals, t0.elapsed().as_secs_f64());
     let l5 = run_multi(&env, &p5);
     eprintln!("P5 done: {} histories, {} evaluations, {:.1}s", p5.len(), l5.evals, t0.elapsed().as_secs_f64());
-    let (e1, e2, e3, e4, e5) = (l1.evals, l2.evals, l3.evals, l4.evals, l5.evals);
-    let total = total.merge(l1).merge(l2).merge(l3).merge(l4).merge(l5);
+    let l7 = run_all(&env, &p7, sign_and_transform);
+    eprintln!("P7 done: {} cases, {} evaluations, {:.1}s", p7.len(), l7.evals, t0.elapsed().as_secs_f64());
+    let (e1, e2, e3, e4, e5, e7) = (l1.evals, l2.evals, l3.evals, l4.evals, l5.evals, l7.evals);
+    let total = total.merge(l1).merge(l2).merge(l3).merge(l4).merge(l5).merge(l7);
     let counters = &total.counts;
     let sum = |p: &str| -> u64 { counters.iter().filter(|(k, _)| k.contains(p)).map(|(_, v)| *v).sum() };
     ctx.finish(
@@ -2607,6 +3161,9 @@ fn main() {
                 "P5_reused_scratch_call_sequences_per_base": h4.len(),
                 "P5_zone_key_lists": h5.len(),
                 "P1_evaluations": e1, "P2_evaluations": e2, "P3_evaluations(bit flips + base)": e3, "P4_evaluations": e4, "P5_evaluations": e5,
+                "P6_key_representation_evaluations": e6,
+                "P6_key_form_algorithms": form_keys.iter().map(|k| k.alg).collect::<Vec<_>>(),
+                "P7_sorted_records_route_cases": p7.len(), "P7_evaluations": e7,
             },
             "signed": sum("signer:signed:"),
             "verified_after_legit_transform": sum("verify:ok-after-legit-transform"),
@@ -2623,6 +3180,9 @@ fn main() {
             "fault enumeration bases: duplicate-free sequences [v0], [v2,v0] (and [v3,v0,v2] thorough), lower-case owners; flips are single-bit; DNSKEY flags/protocol flips are recorded but not judged (not key material, not read by the primitives)",
             "P4: for every type with a domain name in its RDATA, every ordered pair over 27 mixed-case names (first label {a,A,b}^2, second label z/Z/y) put into each name field in turn, as a two-record RRset at the apex, through sign_rrset and the SortedRecords pipeline (algorithm 15; thorough also 13)",
             "P5: per type, RRset [v2,v0]: (mode 4) every sequence of sign_sorted_rrset_in calls over (key x {this RRset, o.z TXT}) to length 3 sharing one scratch Vec, owners z and *.a.z; (mode 5) sign_sorted_zone_records with every key list to length 3 (repetition allowed) on a zone of one or two RRsets, all owners; in thorough the slow algorithms (8, 10, 14) take part in histories/key lists to length 2 only; every RRSIG is checked field by field, with ring over the independent octets, and through a reduced transformation menu (identity, compressed-reversed, combined)",
+            "P6 (both tiers, algorithms 8 10 13 14 15): private key text -> SecretKeyBytes -> text (own field reader compares the key material), four text variants (written-back, no final newline, v1.3 with timing fields, blank lines) each imported with KeyPair::from_bytes and used to sign A/MX/TXT RRsets at z and *.a.z, every RRSIG judged under the key FILE's public key; sign_raw over 4 message lengths verified with ring and with crypto::common::PublicKey; every secret key x every public key of the 8 key files and every single-bit flip of its own DNSKEY RDATA through from_bytes (a foreign or altered public key must be refused); key_size, flag predicates, supported_digest vs digest(); generate() for all 6 parameter sets x flags {256,257}: a generated key goes through the text form, from_bytes and signs the same RRsets verifiably (a refusal to generate is accepted)",
+            "P7 (algorithm 15, owners z and *.a.z, all sequences): SortedRecords built by new+insert, default+extend, extend one by one, collect, from+remove_all+extend, from+remove_first*+insert, from(stand-in)+update_data; bookkeeping methods (len, is_empty, deref, find_soa, find_apex_rtype, remove_* results) compared with the contents; each result signed and judged like entry 2; the validator side additionally runs once with Vec<u8> as octets type (Dnskey::convert, OctetsFrom for records and RRSIG)",
+            "P5 mode 5 also runs with out-of-zone records before (a.y) and after (zz) the zone and (two-RRset zone) with RecordsIter::new_from_refs as input; any RRSIG covering none of the zone's RRsets is a violation",
             "NSEC: RFC 4034 6.2 (lower-case next name) and RFC 6840 5.1 (keep case) are both accepted",
             "a record TTL above the original TTL is not a covered-field alteration; such flips are expected to verify like any other TTL change",
         ],
